@@ -352,6 +352,18 @@ def run_resume(case):
                         res.violate("resume-larger-n_total:" + key, msg + f" [resumed from {path} (written with n_total={cfg['n_total']}) asking for n_total={big['n_total']}]", ck)
                     if getattr(q2.sampler._core, "n_total", None) != big["n_total"]:
                         res.violate("resume-larger-n_total:n_total", f"sampler reports n_total={getattr(q2.sampler._core, 'n_total', None)} after run(n_total={big['n_total']}) on resume", ck)
+            # (4) resuming with a SMALLER target: the checkpoint may already satisfy it; evidence() must still be the evidence of the history
+            if idx >= len(spy.saves) - 3:
+                small = dict(rcfg, n_total=max(4, cfg["n_total"] // 4))
+                q3 = Probe(small, symbols=symbols, base=case["base"], fs=fs, iter_offset=int(k), max_iters=200)
+                q3.run(resume_state_path=path)
+                res.evals += 1
+                res.trans += q3.events
+                if q3.exc is not None:
+                    res.violate(f"resume:raises:{type(q3.exc).__name__}", f"run(resume_state_path={path}, n_total={small['n_total']}) raised {q3.exc!r}", ck)
+                else:
+                    for key, msg in terminal_errors(q3):
+                        res.violate("resume-smaller-n_total:" + key, msg + f" [resumed from {path} (written with n_total={cfg['n_total']}) asking for n_total={small['n_total']}]", ck)
             if len(q.state._history["beta"]) < T0:
                 res.violate("resume:history-lost", f"history has {len(q.state._history['beta'])} batches after resuming from one with {T0}", ck)
             res.outcome(("resume", tuple(sorted((a, repr(b)) for a, b in case["cfg"].items())), tuple(sorted(symbols.items())), idx), nontrivial=T0 > 0)
